@@ -128,12 +128,17 @@ def showbias(
     """
     _validate_column_inputs(data, group_columns, label_column, score_column)
 
+    group_keys = None
     if isinstance(group_columns, str):
         groups = data[group_columns]
     elif isinstance(group_columns, Iterable):
-        groups = data.apply(
-            lambda row: "_".join(row[col] for col in group_columns), axis=1
-        )
+        # A group is identified by the tuple of its values in the group columns. We
+        # pass the position of the tuple in the sorted list of distinct tuples on as
+        # group label, since joining the values to one string is not injective.
+        keys = list(zip(*[data[col] for col in group_columns]))
+        group_keys = sorted(set(keys))
+        codes = {key: j for j, key in enumerate(group_keys)}
+        groups = pd.Series([codes[key] for key in keys], index=data.index, dtype=int)
     else:
         raise TypeError(
             f"Got unexpected type {type(group_columns)} value for `group_columns`"
@@ -161,7 +166,12 @@ def showbias(
         return getattr(sample.group_cm(**kwargs), metric)()
 
     group_names = score_object.groups
-    group_index = _get_group_index(group_names, group_columns)
+    if group_keys is not None:
+        group_index = pd.MultiIndex.from_tuples(
+            [group_keys[j] for j in group_names], names=list(group_columns)
+        )
+    else:
+        group_index = _get_group_index(group_names, group_columns)
     group_metrics = calculate_group_metric(score_object, **metric_kwargs)
 
     if normalize is not None:
